@@ -28,6 +28,12 @@ CLAIMED = {
  "C19": ("exhaustive CFG path enumeration of the directory source's retry loop and listing loop (iterator protocol), dominance checks for the sort, call-chain check of the CLI wiring",
          "Decides on every path through NewDirectoryGtfsrtSource and Next (fault edges included) that every entry is listed once, names are sorted before use, the stream ends exactly on an empty list, each trip around the loop consumes exactly the front name, read and parse failures continue, and a success returns the parse of exactly that file. Holds for every directory content and fault pattern because the enumeration covers all CFG paths; os/sort/ParseRealtime behaviour itself is trusted (C05 covers ParseRealtime's totality).",
          "Trusts os.ReadDir/os.ReadFile/sort.Strings/filepath.Join as documented; journal equality over histories is C14/C15's subject."),
+ "C07": ("path enumeration over the entity loop's CFG (merge on every path), dominance/guard rules for accumulator creation and the no-id list, shape check of mergeTrip/mergeVehicle, G6/G16 sort rule, E4 return-path tables of the entity parsers",
+         "Structural necessary conditions of order-independent merging, uniqueness and sortedness, decided on every path of ParseRealtime: each is a statement about the only code that creates, merges, sorts and copies out the entries, so it holds for every message and every entity permutation. Not decided: commutativity for conflicting duplicates (excluded by the property).",
+         "Accumulator entries of distinct keys are distinct objects; sort.Slice sorts; TripID.Less totality is checked as field coverage (G16), not as an order-theoretic proof."),
+ "C04": ("provenance and dominance rules for every store to Trip.Vehicle / Vehicle.Trip, pairing rule for the association tables, path enumeration of the both-present region, E4 return-path tables of the entity parsers",
+         "Decides the link mechanism structurally for every feed and entity order: links are stored only between accumulator entries and only after all merging is done, every expressed association is recorded on every path and resolved, and copies are taken after linking. Content equality behind the links follows from these plus C07; it is not separately computed.",
+         "Feeds associate each trip with at most one vehicle (property's quantifier); accumulator entries of distinct keys are distinct objects."),
 }
 REASON_TODO = "check under construction in this session (static rule set designed in DESIGN.md section 3, not yet implemented); not claimed until it runs clean on the unchanged tree"
 NOT_APPLICABLE = {}
